@@ -16,7 +16,8 @@ EXPLANATION = (
     "rounding digits; probabilistic states average; 'probability under minimal reward' is seeded with the "
     "reachability value for every state after the reachability sweep; the reward sweep's stop rule includes both "
     "auxiliary changes (C02.3 re-evaluated). The conditioning (C03.1-3) and the precision chain (C04.2) are "
-    "re-evaluated as prerequisites.")
+    "re-evaluated as prerequisites."
+    ' Also: nothing computed by one solve is handed to the next (pre:C10.2), and no kernel funnels its transitions through a dictionary keyed by a part of the transition (0:keyed).')
 ASSUMPTIONS = ["no reward ties at states reachable from the initial state (the property's own domain)"]
 TECHNIQUE = "symbolic kernel normal forms with arg-successor tracking (ast)"
 
